@@ -184,7 +184,22 @@ def run(rep, ctx):
     n = 400 if tier == 'quick' else 8000
     pairs = [gen_pair(rng) for _ in range(n)]
     pairs += [('<a href="/x">&lt;script&gt;alert(1)&lt;/script&gt;</a>', '<title>&lt;/title&gt;&lt;script&gt;alert(2)&lt;/script&gt;</title><a href="/x">&lt;script&gt;alert(1)&lt;/script&gt; more</a>'),
-              ('<a href="/a">same</a>', '<a href="/a">same</a>'), ('', ''), ('<p>no links</p>', '<a href="/new">n</a>')]
+              ('<a href="/a">same</a>', '<a href="/a">same</a>'), ('', ''), ('<p>no links</p>', '<a href="/new">n</a>'),
+              # changed entries in which BOTH the text (only in letter case, so the links still match roughly) and the target change
+              ('<a href="/reports/2016">Annual Report</a> <a href="/reports/archive">Annual Report</a>', '<a href="/reports/2017">ANNUAL REPORT</a> <a href="/reports/archive">Annual Report</a>'),
+              ('<a href="/n/1">news</a><a href="/n/2">News</a><a href="/n/3">NEWS</a>', '<a href="/n/4">NEWS</a><a href="/n/2">News</a><a href="/n/5">news item</a>'),
+              ('<a href="/x">Read More</a><a href="/y">Read More</a><a href="/z">Read more</a>', '<a href="/x2">read more</a><a href="/y">Read More</a><a href="/z">READ MORE</a>')]
+    # case variants of one text over several targets, edited in text case and target at once
+    for _ in range(40 if tier == 'quick' else 600):
+        base = rng.choice(['Annual Report', 'read more', 'Data &amp; Tools', 'Caf\u00e9'])
+        var = lambda t: rng.choice([t, t.upper(), t.lower(), t.title()])  # noqa
+        k = rng.randint(2, 4)
+        a_links = ['<a href="/t/%d">%s</a>' % (i, var(base)) for i in range(k)]
+        b_links = []
+        for i, l in enumerate(a_links):
+            r = rng.random()
+            b_links.append(l if r < 0.4 else '<a href="/t/%d">%s</a>' % (i + (10 if r < 0.8 else 0), var(base)))
+        pairs.append((' '.join(a_links), ' '.join(b_links)))
     n_obs = n_corr = 0
     lines, wanted = [], []
     dist = {'entries': 0, 'changed_entries': 0, 'hostile_texts': 0, 'pairs': len(pairs)}
